@@ -70,10 +70,25 @@ Lemma starts_for_every_limit : forall limit, init fixed limit = Running st0.
 Proof. reflexivity. Qed.
 
 (* ---- before the fixes *)
-Definition before_cap := mkFixes false true true true.
-Definition before_dec := mkFixes true false true true.
-Definition before_intr := mkFixes true true false true.
-Definition before_block := mkFixes true true true false.
+Definition before_cap := mkFixes false true true true true.
+Definition before_dec := mkFixes true false true true true.
+Definition before_intr := mkFixes true true false true true.
+Definition before_block := mkFixes true true true false true.
+Definition before_zero := mkFixes true true true true false.
+
+(* buffer_size(Some(0)) before the fix: no wake-up can take anything from the channel *)
+Lemma zero_refuted_before_fix : forall s metas frames ws, metas <> [] \/ frames <> [] ->
+  step_wake before_zero (Some 0) s metas frames ws = None.
+Proof.
+  intros s metas frames ws H. unfold step_wake.
+  change (lim_of before_zero (Some 0)) with 0.
+  assert (((0 <? len frames) || ((0 =? 0) && negb (len metas =? 0))) = true) as ->; [|reflexivity].
+  destruct H as [H|H].
+  - destruct metas; [congruence|]. rewrite orb_true_iff. right. reflexivity.
+  - destruct frames; [congruence|]. reflexivity.
+Qed.
+Lemma zero_after_fix : lim_of fixed (Some 0) = 1.
+Proof. reflexivity. Qed.
 
 Lemma cap_refuted_before_fix : init before_cap None = Panicked.
 Proof. vm_compute. reflexivity. Qed.
@@ -159,8 +174,8 @@ Qed.
 Lemma stream_ok_whole x s : stream_ok x s = true -> x_stay x = true ->
   exists bodies es, split_frames s = (bodies, []) /\ decode_all bodies = Some es.
 Proof.
-  unfold stream_ok. destruct (split_frames s) as [bodies rest] eqn:E. intros H Hs. rewrite Hs in H.
-  apply andb_true_iff in H. destruct H as [H1 H2]. destruct rest; [|discriminate H1].
+  unfold stream_ok, stream_log_ok. destruct (split_frames s) as [bodies rest] eqn:E. intros H Hs. rewrite Hs in H.
+  apply andb_true_iff in H. destruct H as [H _]. apply andb_true_iff in H. destruct H as [H1 H2]. destruct rest; [|discriminate H1].
   destruct (decode_all bodies) as [es|] eqn:E2; [|discriminate H2]. exists bodies, es. split; auto.
 Qed.
 
